@@ -38,6 +38,12 @@ def make_site(rng, i, depth):
     op = rng.choice(["eq", "eq", "eq", "req", "le", "ge", "in", "getitem"])
     place = rng.choice(PLACES)
     s = {"id": i, "op": op, "old": None, "place": place}
+    if op in ("eq", "req") and rng.random() < 0.06:
+        # a field left to its default factory and changed in place afterwards: it is no longer "at its default"
+        cls = rng.choice(["DC", "AT", "PM"])
+        s["obs"] = [f"appended({cls}(a={rng.randint(0, 99)}), 'c', {rng.randint(0, 99)})"] * rng.choice([1, 2])
+        s["sig"] = "default-factory-field-mutated/" + cls
+        return s
     if op in ("eq", "req"):
         t = gen.gen_value(rng, depth)
         s["obs"] = [gen.expr(t)] * rng.choice([1, 1, 2])
